@@ -369,7 +369,8 @@ namespace BitSerializer::Convert::Detail
 			if (utc.Year >= 10000) {
 				*pos++ = '+';
 			}
-			const size_t outSize = snprintf(pos, endPos - pos, "%04" PRId64 "-%02d-%02dT%02d:%02d:%02d", utc.Year, utc.Month, utc.Day, utc.Hour, utc.Min, utc.Sec);
+			// The sign of a negative year counts towards the field width ("-0001", not "-001")
+			const size_t outSize = snprintf(pos, endPos - pos, "%0*" PRId64 "-%02d-%02dT%02d:%02d:%02d", utc.Year < 0 ? 5 : 4, utc.Year, utc.Month, utc.Day, utc.Hour, utc.Min, utc.Sec);
 			if (outSize > 0)
 			{
 				pos += outSize;
